@@ -179,6 +179,73 @@ def shrink(tools, exe, src, key, budget=60):
     return "\n".join(lines)
 
 
+REG_DECLS = [
+    ("a0", "var<private> a0: vec3<f32>;"), ("a1", "var<private> a1: array<vec3<f32>, 4>;"), ("a2", "var<private> a2: mat3x3<f32>;"),
+    ("a3", "var<private> a3: array<f32, 4>;"), ("a4", "struct S1 { x: vec3<f32>, y: array<f32, 4>, z: mat3x3<f32> }\nvar<private> a4: S1;"),
+    ("a5", "var<private> a5: vec3<i32>;"), ("a6", "var<private> a6: array<array<f32, 4>, 2>;"),
+    ("a7", "alias F3 = vec3<f32>;\nvar<private> a7: F3;"), ("a8", "var<private> a8: vec2<u32>;"),
+    ("a9", "var<workgroup> a9: atomic<u32>;"), ("b0", "struct S2 { p: S1, q: array<S1, 2> }\nvar<private> b0: S2;"),
+    ("b1", "var<private> b1: array<vec3<f32>, 4>;"), ("b2", "var<private> b2: array<f32, 4>;"),
+]
+
+
+def expand_type(types, h, depth=0):
+    """structural expansion of a type handle (names kept, handles replaced by what they denote)"""
+    if h is None or h >= len(types) or depth > 20:
+        return ("bad", h)
+    t = types[h]
+    inner = t["Inner"]
+    k = inner["_t"]
+    out = [t["Name"], k]
+    for f in sorted(inner):
+        v = inner[f]
+        if f == "_t":
+            continue
+        if f == "Base" and isinstance(v, int):
+            out.append((f, expand_type(types, v, depth + 1)))
+        elif f == "Members":
+            out.append((f, tuple((mb["Name"], mb["Offset"], expand_type(types, mb["Type"], depth + 1)) for mb in v)))
+        else:
+            out.append((f, json.dumps(v, sort_keys=True)))
+    return tuple(out)
+
+
+def registry_orders(ctx, tools, nperm):
+    """C tie for the registry model: the same declarations in different orders (so the types are
+    first mentioned in different orders) must give every variable the same structural type."""
+    rng = ctx.rng.fork("registry")
+    uses = "\n".join("    _ = %s;" % n if n != "a9" else "    _ = atomicLoad(&a9);" for n, _ in REG_DECLS)
+    # a4 must be declared before b0 (S2 mentions S1): keep that pair ordered
+    progs = []
+    for k in range(nperm):
+        ds = rng.shuffle(REG_DECLS) if k else list(REG_DECLS)
+        names = [n for n, _ in ds]
+        if names.index("a4") > names.index("b0"):
+            i, j = names.index("a4"), names.index("b0")
+            ds[i], ds[j] = ds[j], ds[i]
+        progs.append(("registry/%d" % k, "\n".join(d for _, d in ds) + "\n@compute @workgroup_size(1) fn main() {\n" + uses + "\n}\n"))
+    res = compile_all(tools, progs)
+    ref = None
+    compared = 0
+    for i, (name, src) in enumerate(progs):
+        r = res.get(i)
+        if not r or "ir" not in r:
+            ctx.violation("front end rejects the registry-order program %s: %s" % (name, (r or {}).get("err")),
+                          files={"src.wgsl": src}, key="registry.rejected")
+            continue
+        types = r["ir"]["Types"]
+        sig = {g["Name"]: expand_type(types, g["Type"]) for g in r["ir"]["GlobalVariables"]}
+        if ref is None:
+            ref = (sig, src)
+        else:
+            compared += 1
+            if sig != ref[0]:
+                diff = [n for n in sig if sig.get(n) != ref[0].get(n)]
+                ctx.violation("type registry: declaration order changes the structural type of %s" % diff,
+                              files={"first.wgsl": ref[1], "permuted.wgsl": src}, key="registry.order_dependent")
+    return compared
+
+
 def run(ctx):
     tools = vcheck.build_harness(["nagadrive", "goextract"])
     ok, failed, log = vcheck.proof_step(
@@ -257,6 +324,7 @@ def run(ctx):
             per_clause["validate"] = per_clause.get("validate", 0) + 1
         if r.get("validate_err"):
             by_key.setdefault("validate:error", []).append((name, src, "naga.Validate failed: " + r["validate_err"]))
+    ctx.cov["registry_order_permutations_compared"] = registry_orders(ctx, tools, ctx.scale(8, 60))
     # ---- report
     nviol = 0
     for key in sorted(by_key):
@@ -279,7 +347,8 @@ def run(ctx):
     ctx.cov["notes"] = dict(sorted(notes.items()))
     ctx.cov["uninferred"] = {k[len("uninferred."):]: v for k, v in sorted(notes.items()) if k.startswith("uninferred.")}
     ctx.cov["totals"] = totals
-    ctx.cov["programs"] = {"corpus": sum(1 for p in accepted if p[0].startswith("corpus/")),
+    ctx.cov["programs"] = len(accepted)
+    ctx.cov["program_sources"] = {"corpus": sum(1 for p in accepted if p[0].startswith("corpus/")),
                            "templates": sum(1 for p in accepted if p[0].startswith("template/")),
                            "generated_accepted": sum(1 for p in accepted if p[0].startswith("gen/")),
                            "generated_total": ngen, "rejected_by_front_end": rejected, "crashed": crashed}
